@@ -66,6 +66,17 @@ def run(check: Check) -> None:
     for q, wrap in itertools.product(range(2), range(2)):
         for cs in itertools.product(range(14), repeat=3):
             native("pylit", q, cs[0], cs[1], cs[2], 13, wrap, __SHARD__=cs[0], __C3LO__=13, __C2LO__=0)
+    # native companion (ground): whitespace of random kind and length at the token boundaries of grammar-derived formulas
+    nws = 0
+    ws_bad = []
+    for canon, spaced in ch_c15.ws_random_cases(check.seed * 3 + 1, 20000 if thorough else 3000):
+        nws += 1
+        msg = ch_c15.ws_random_check(canon, spaced)
+        if msg:
+            ws_bad.append((canon, spaced, msg))
+    check.obligation("whitespace.random/ground", "ground", nws - len(ws_bad))
+    for canon, spaced, msg in ws_bad[:5]:
+        check.violation(f"{msg.split(':', 1)[0]}::{canon}", msg, {"kind": "c15_ws", "canon": canon, "spaced": spaced})
     check.obligation("lexing/native cross-validation", "ground" if not fails else "refuted")
     seen_f = set()
     for fname, args, glob in fails:
